@@ -246,6 +246,32 @@ def artefact_identity():
                 bad.append(("skeleton-differs", r, repr(ps_.get(r))[:200], repr(cs_.get(r))[:200]))
     except Exception as e:  # noqa
         bad.append(("skeleton-unreadable", common.exc_sig(e)))
+    # control flow of the C++ rule functions: the generated code selects one alternative per decision with a `switch`;
+    # every `case ...: {` block must leave the switch (`break;`, `return`, `throw`) - an alternative that falls through
+    # into the next one parses another language although every automaton, table and state number is unchanged
+    try:
+        for fn in ("blackbird_cpp/blackbirdParser.cpp", "blackbird_cpp/blackbirdLexer.cpp"):
+            lines = open(P(fn), encoding="utf-8").read().split("\n")
+            for i, ln in enumerate(lines):
+                m = re.match(r"^(\s*)(case [^{}]*|default)\s*:\s*\{\s*$", ln)
+                if not m:
+                    continue
+                n += 1
+                depth, j = 1, None       # matching brace by counting (the generated code indents `(...)+` loops unevenly)
+                for k in range(i + 1, len(lines)):
+                    code = re.sub(r'"(?:\\.|[^"\\])*"|\'(?:\\.|[^\'\\])\'', "", lines[k])
+                    depth += code.count("{") - code.count("}")
+                    if depth <= 0:
+                        j = k
+                        break
+                if j is None:
+                    bad.append(("cpp-control-flow", fn, "line %d: block of `%s` is never closed" % (i + 1, ln.strip())))
+                    continue
+                last = next((lines[k].strip() for k in range(j - 1, i, -1) if lines[k].strip()), "")
+                if not (last == "break;" or last.startswith("return") or last.startswith("throw") or last == "continue;"):
+                    bad.append(("cpp-control-flow", fn, "line %d: alternative `%s` does not end in break/return/throw (last statement `%s`): it falls through into the next alternative" % (i + 1, ln.strip(), last[:60])))
+    except Exception as e:  # noqa
+        bad.append(("cpp-control-flow-unreadable", common.exc_sig(e)))
     # listener / visitor method sets = rule names + label names
     labels = [a.label for r in ps for a in r.body.alts if a.label]
     ctxs = [r[0].upper() + r[1:] for r in g4_rules if not any(a.label for rr in ps if rr.name == r for a in rr.body.alts)] + labels
@@ -377,6 +403,33 @@ def run(ctx):
         seen_base.add(base)
         for mt in mutations(tuple(t for t in base if t != "EOF"), mut_alpha):
             cases.setdefault(sentences.to_text(mt), ("mutation", r))
+    # token spellings: a token type with several spellings (TAB: tab / four blanks, NEWLINE: LF / CRLF / CR, BOOL) may be
+    # spelt differently at every occurrence - the verdict depends on the token types only
+    SPELL = {"TAB": ["\t", "    "], "NEWLINE": ["\n", "\r\n", "\r"], "BOOL": ["True", "False"]}
+    rich = [("PROGNAME", "NAME", "NEWLINE", "VERSION", "FLOAT", "NEWLINE", "TYPE_FLOAT", "TYPE_ARRAY", "NAME", "ASSIGN", "NEWLINE", "TAB", "FLOAT", "COMMA", "FLOAT", "NEWLINE", "TAB", "FLOAT", "COMMA", "FLOAT", "NEWLINE",
+             "FOR", "TYPE_INT", "NAME", "IN", "INT", "COLON", "INT", "NEWLINE", "TAB", "NAME", "APPLY", "INT", "NEWLINE", "TAB", "NAME", "LBRAC", "BOOL", "COMMA", "BOOL", "RBRAC", "APPLY", "NAME", "NEWLINE", "EOF")]
+    bases_sp = [cx[r][0] + sh[r] + cx[r][1] for r in rules if r in cx] + rich
+    nspell = 0
+    for base in dict.fromkeys(bases_sp):
+        pos = [i for i, t in enumerate(base) if t in SPELL]
+        ntab = sum(1 for i in pos if base[i] == "TAB")
+        if len(pos) < 2:
+            continue
+        choices = [SPELL[base[i]] if (base[i] != "NEWLINE" or len(pos) <= 7) else None for i in pos]
+        for nlstyle in (SPELL["NEWLINE"] if any(c is None for c in choices) else [None]):
+            opts = [c if c is not None else [nlstyle] for c in choices]
+            for combo in itertools.product(*opts):
+                sp = dict(zip(pos, combo))
+                out_, prev = [], None
+                for i, t in enumerate(base):
+                    if t == "EOF":
+                        continue
+                    if prev is not None and prev not in sentences.GLUE and t not in sentences.GLUE:
+                        out_.append(" ")
+                    out_.append(sp.get(i, sentences.EXEMPLARS[t]))
+                    prev = t
+                if cases.setdefault("".join(out_), ("spelling", "-")) == ("spelling", "-"):
+                    nspell += 1
     texts_e = sorted(cases)
     texts_e = common.shard(texts_e, ctx.seed)
     res = pool.pmap(_parse_case, texts_e, chunk=100)
